@@ -382,6 +382,14 @@ def r3(ctx, recomputers):
         A, K = pa['A'], pa['K']
         o = (pa['ccF'], pa['piecesF'])
         ctx.ok(R, '%s: attackers = cc(A) & ((bishop_rays(k) & (B|Q)) | (rook_rays(k) & (R|Q)))' % key, w)
+        # every attacker is examined: the only way out of the scan is the exhaustion of the attacker set (a pin found
+        # after the second checker is still a pin)
+        early = sorted({a for a, _ in loop_exits(s, loop) if a not in ctrl_blocks(s, loop)})
+        if early:
+            ctx.violation(R, key + ':early-exit', '%s leaves the slider scan before every attacker was examined (exit from block(s) %s): '
+                          'checkers and pins of the remaining sliders are lost' % (key, early), w)
+        else:
+            ctx.ok(R, '%s: the scan examines every attacker (the only loop exit is iterator exhaustion)' % key, w)
         # placement is read from the current state of the produced object
         root = result_root(s)
         cands = []
